@@ -53,6 +53,7 @@ struct ICase {
     unsigned vctx = 0;
     unsigned cycles = 1;
     std::vector<uint16_t> more_code; // further program words following the instruction (multi-instruction cases)
+    std::string tag;                 // free-form: which relation a multi-instruction case is about
 };
 
 struct IResult {
@@ -294,6 +295,8 @@ inline std::string encode(const ICase& c) {
         s += "irq " + vf::hex(c.irq_mask) + " " + vf::hex(c.vaddr) + " " + vf::hex(c.vctx) + "\n";
     if (c.cycles != 1)
         s += "cycles " + vf::hex(c.cycles) + "\n";
+    if (!c.tag.empty())
+        s += "tag " + c.tag + "\n";
     if (!c.more_code.empty()) {
         s += "code";
         for (auto w : c.more_code)
@@ -326,6 +329,8 @@ inline ICase decode(const std::string& text) {
             c.vctx = (unsigned)vf::unhex(t[3]);
         } else if (t[0] == "cycles" && t.size() >= 2) {
             c.cycles = (unsigned)vf::unhex(t[1]);
+        } else if (t[0] == "tag") {
+            c.tag = l.size() > 4 ? l.substr(4) : "";
         } else if (t[0] == "code") {
             for (size_t i = 1; i < t.size(); ++i)
                 c.more_code.push_back((uint16_t)vf::unhex(t[i]));
